@@ -135,3 +135,70 @@ Example ex_reclimit :
   nexts umkleaf ulnext ulclose ex_prog2 (fun _ => 0) 100 1 1 [(7, A "keep")] (IFresh (fst (ex_prog2 1)) tt)
   = Some ([(7, A "keep")], IDone, [], RRaise).
 Proof. vm_compute. reflexivity. Qed.
+
+(* ------------------------------------------------------------------ *)
+(* (3) SCHEDULES over several generator objects: creation (unify(..) / unify_arrays(..) / v.unify(..)
+   is CALLED), first and later __next__, close()/drop are separate events, in any interleaving -
+   in particular "created early, started late": what a generator object does is decided partly when
+   it is created (both sides are dereferenced, the dispatch on their types) and partly when it is
+   started (is the variable still unbound? its value is dereferenced again).  Observation after
+   every event: did it yield, and the whole heap. *)
+Inductive ev := EvCreate (i : nat) (t : target) | EvNext (i : nat) | EvClose (i : nat).
+
+Fixpoint slot_get (i : nat) (sl : list (nat * gen)) : option gen :=
+  match sl with [] => None | (j, g) :: r => if Nat.eqb i j then Some g else slot_get i r end.
+Definition slot_set (i : nat) (g : gen) (sl : list (nat * gen)) : list (nat * gen) :=
+  (i, g) :: filter (fun p => negb (Nat.eqb i (fst p))) sl.
+
+(* is the heap still a triangular, acyclic store with one binding per cell?  (otherwise the case
+   needs a cyclic term or is outside the engine's discipline: reported as such and not compared) *)
+Fixpoint heap_ok (h : heap) : bool :=
+  match h with
+  | [] => true
+  | (v, t) :: r => negb (occurs v (den r t)) && (match lookup v r with None => true | Some _ => false end) && heap_ok r
+  end.
+
+(* would starting this generator object bind a cell to a term that contains it? *)
+Definition gen_cyc (fuel : nat) (h : heap) (g : gen) : bool :=
+  match g with
+  | GVarFresh v t => match unify fuel h (TVar v) t with UCyc => true | _ => false end
+  | GArrFresh xs ys => match unify_arrays fuel h xs ys with UCyc => true | _ => false end
+  | _ => false
+  end.
+
+Fixpoint run_sched (fuel : nat) (h : heap) (sl : list (nat * gen)) (evs : list ev) (nvars : nat) : option (list obs) :=
+  match evs with
+  | [] => Some []
+  | e :: r =>
+      let step (y : bool) (h1 : heap) (sl1 : list (nat * gen)) :=
+        if heap_ok h1 then
+          match run_sched fuel h1 sl1 r nvars with
+          | None => None
+          | Some l => Some (OL [obool y; snapshot h1 nvars] :: l)
+          end
+        else Some [otag "cyc" []] in
+      match e with
+      | EvCreate i t => step false h (slot_set i (mk_target h t) sl)
+      | EvNext i =>
+          match slot_get i sl with
+          | None => step false h sl
+          | Some g =>
+              if gen_cyc fuel h g then Some [otag "cyc" []] else
+              match next fuel h g with
+              | None => None
+              | Some (h1, g1, y) => step y h1 (slot_set i g1 sl)
+              end
+          end
+      | EvClose i =>
+          match slot_get i sl with
+          | None => step false h sl
+          | Some g => step false (fst (close h g)) (slot_set i (snd (close h g)) sl)
+          end
+      end
+  end.
+
+Definition run_schedule (fuel : nat) (evs : list ev) (nvars : nat) : obs :=
+  match run_sched fuel [] [] evs nvars with
+  | None => otag "oof" []
+  | Some l => otag "ok" [OL l]
+  end.
